@@ -384,3 +384,20 @@ package sflow
 //@         && d.reader.Pos == counterEndU(d.reader.D, iter(d.reader.Pos) + 8) && countersKept(datagram.Counters, iter(datagram.Counters)) && datagram.Samples == iter(datagram.Samples)
 //@     step [header] datagram.Version == iter(datagram.Version) && datagram.IPVersion == iter(datagram.IPVersion) && datagram.IPAddress == iter(datagram.IPAddress) && datagram.AgentSubID == iter(datagram.AgentSubID)
 //@         && datagram.SequenceNo == iter(datagram.SequenceNo) && datagram.SysUpTime == iter(datagram.SysUpTime) && datagram.SamplesNo == iter(datagram.SamplesNo)
+
+// >>> field snapshots (govc -gen-names)
+//@ fields CounterSample SequenceNo SourceIDType SourceIDIdx RecordsNo Records
+//@ fields EthernetInterfaceCounters AlignmentErrors FCSErrors SingleCollisionFrames MultipleCollisionFrames SQETestErrors DeferredTransmissions LateCollisions ExcessiveCollisions InternalMACTransmitErrors CarrierSenseErrors FrameTooLongs InternalMACReceiveErrors SymbolErrors
+//@ fields ExtRouterData NextHop SrcMask DstMask
+//@ fields ExtSwitchData SrcVlan SrcPriority DstVlan DstPriority
+//@ fields FlowSample SequenceNo SourceID SamplingRate SamplePool Drops Input Output RecordsNo Records
+//@ fields GenericInterfaceCounters Index Type Speed Direction Status InOctets InUnicastPackets InMulticastPackets InBroadcastPackets InDiscards InErrors InUnknownProtocols OutOctets OutUnicastPackets OutMulticastPackets OutBroadcastPackets OutDiscards OutErrors PromiscuousMode
+//@ fields ProcessorCounters CPU5s CPU1m CPU5m TotalMemory FreeMemory
+//@ fields SFDatagram Version IPVersion AgentSubID SequenceNo SysUpTime SamplesNo Samples Counters IPAddress ColTime
+//@ fields SFDecoder reader filter
+//@ fields SFSampledHeader HeaderProtocol FrameLength Stripped HeaderLength HeaderBytes
+//@ fields SampledHeader Protocol FrameLength Stripped HeaderLength Header
+//@ fields TokenRingCounters LineErrors BurstErrors ACErrors AbortTransErrors InternalErrors LostFrameErrors ReceiveCongestions FrameCopiedErrors TokenErrors SoftErrors HardErrors SignalLoss TransmitBeacons Recoverys LobeWires Removes Singles FreqErrors
+//@ fields VGCounters InHighPriorityFrames InHighPriorityOctets InNormPriorityFrames InNormPriorityOctets InIPMErrors InOversizeFrameErrors InDataErrors InNullAddressedFrames OutHighPriorityFrames OutHighPriorityOctets TransitionIntoTrainings HCInHighPriorityOctets HCInNormPriorityOctets HCOutHighPriorityOctets
+//@ fields VlanCounters ID Octets UnicastPackets MulticastPackets BroadcastPackets Discards
+// <<< field snapshots
